@@ -5,6 +5,8 @@ import (
 	"hash"
 	"runtime"
 	"strings"
+	"sync"
+	"sync/atomic"
 
 	"github.com/free5gc/ike"
 	"github.com/free5gc/ike/message"
@@ -192,18 +194,24 @@ type spyEvent struct {
 	N    int
 }
 
+// spyLog is safe to use from goroutines the library might start itself.
 type spyLog struct {
+	mu sync.Mutex
 	ev []spyEvent
 }
 
 func (l *spyLog) add(obj, call string, n int) {
 	if l != nil {
+		l.mu.Lock()
 		l.ev = append(l.ev, spyEvent{obj, call, n})
+		l.mu.Unlock()
 	}
 }
 
 func (l *spyLog) count(call string) int {
 	n := 0
+	l.mu.Lock()
+	defer l.mu.Unlock()
 	for _, e := range l.ev {
 		if e.Call == call {
 			n++
@@ -213,6 +221,8 @@ func (l *spyLog) count(call string) int {
 }
 
 func (l *spyLog) String() string {
+	l.mu.Lock()
+	defer l.mu.Unlock()
 	var sb strings.Builder
 	for i, e := range l.ev {
 		if i > 0 {
@@ -226,17 +236,17 @@ func (l *spyLog) String() string {
 type spyCrypto struct {
 	name  string
 	inner ikeCrypto.IKECrypto
-	log   **spyLog
+	log   *atomic.Pointer[spyLog]
 }
 
 func (s *spyCrypto) Encrypt(p []byte) ([]byte, error) {
-	(*s.log).add(s.name, "Encrypt", len(p))
+	s.log.Load().add(s.name, "Encrypt", len(p))
 	schedYield("spy")
 	return s.inner.Encrypt(p)
 }
 
 func (s *spyCrypto) Decrypt(c []byte) ([]byte, error) {
-	(*s.log).add(s.name, "Decrypt", len(c))
+	s.log.Load().add(s.name, "Decrypt", len(c))
 	schedYield("spy")
 	return s.inner.Decrypt(c)
 }
@@ -244,20 +254,20 @@ func (s *spyCrypto) Decrypt(c []byte) ([]byte, error) {
 type spyHash struct {
 	name  string
 	inner hash.Hash
-	log   **spyLog
+	log   *atomic.Pointer[spyLog]
 }
 
 func (s *spyHash) Write(p []byte) (int, error) {
-	(*s.log).add(s.name, "Write", len(p))
+	s.log.Load().add(s.name, "Write", len(p))
 	schedYield("spy")
 	return s.inner.Write(p)
 }
 func (s *spyHash) Sum(b []byte) []byte {
-	(*s.log).add(s.name, "Sum", len(b))
+	s.log.Load().add(s.name, "Sum", len(b))
 	return s.inner.Sum(b)
 }
 func (s *spyHash) Reset() {
-	(*s.log).add(s.name, "Reset", 0)
+	s.log.Load().add(s.name, "Reset", 0)
 	s.inner.Reset()
 }
 func (s *spyHash) Size() int      { return s.inner.Size() }
@@ -265,7 +275,7 @@ func (s *spyHash) BlockSize() int { return s.inner.BlockSize() }
 
 // spied wraps every security object of o with spies that log into *log.
 // The wrapping is itself long-lived, so histories on the inner objects are kept.
-func spied(o *security.IKESAKey, log **spyLog) *security.IKESAKey {
+func spied(o *security.IKESAKey, log *atomic.Pointer[spyLog]) *security.IKESAKey {
 	c := *o
 	c.Encr_i = &spyCrypto{"Encr_i", o.Encr_i, log}
 	c.Encr_r = &spyCrypto{"Encr_r", o.Encr_r, log}
@@ -331,6 +341,18 @@ func guard(res *callResult, f func()) {
 	f()
 }
 
+// quiesce waits until goroutines started during a library call have finished
+// (quiescence detection: the library is not supposed to start any; if a changed
+// tree does, their effects are observed before the oracles run, deterministically).
+func quiesce(base int) {
+	if simRand.parallel.Load() || schedHook != nil {
+		return // C18 runs own goroutines; the count means nothing there
+	}
+	for i := 0; i < 200000 && runtime.NumGoroutine() > base; i++ {
+		runtime.Gosched()
+	}
+}
+
 func roleOf(s string) message.Role {
 	if s == "I" {
 		return message.Role_Initiator
@@ -354,9 +376,11 @@ func protect(msg *message.IKEMessage, key *security.IKESAKey, role string, rs *R
 	}
 	res.RandSt = simRand.begin(sc)
 	var out []byte
+	base := runtime.NumGoroutine()
 	guard(res, func() {
 		out, res.Err = ike.EncodeEncrypt(msg, key, roleOf(role))
 	})
+	quiesce(base)
 	simRand.end()
 	return out, res
 }
@@ -367,6 +391,9 @@ type RxOpts struct {
 	Spare    int    `json:"spare,omitempty"`    // spare capacity behind the datagram (poisoned)
 	Scribble string `json:"scribble,omitempty"` // "", "complement", "random", "zero"
 	Hold     int    `json:"hold,omitempty"`
+	// Redeliver: the same receive buffer (not a copy) is presented a second time,
+	// to a decoder with its own key object, as a retrying or second receiver would.
+	Redeliver bool `json:"redeliver,omitempty"`
 }
 
 // rxBuffer copies d into a receive buffer: exact capacity or with poisoned spare.
@@ -391,6 +418,8 @@ func unprotect(buf []byte, key *security.IKESAKey, role string, prehdr bool) (*m
 	res := &callResult{}
 	res.RandSt = simRand.begin(RandScript{Seed: 2})
 	var out *message.IKEMessage
+	base := runtime.NumGoroutine()
+	defer quiesce(base)
 	guard(res, func() {
 		var h *message.IKEHeader
 		if prehdr {
